@@ -5,6 +5,7 @@ import SakuraVerif.Driver.MsgOps
 import SakuraVerif.Driver.SutOps
 import SakuraVerif.Driver.ExprOps
 import SakuraVerif.Driver.CoreOps
+import SakuraVerif.Driver.ScriptOps
 open Sakura Sakura.Wire Sakura.Driver
 
 def handle (line : String) : String :=
@@ -28,6 +29,7 @@ def handle (line : String) : String :=
   | "builtin" :: name :: args => "ok " ++ builtinEval name args
   | ["coresem", prog] => "ok " ++ coreSem prog
   | ["spec.c03", prog, bin] => "ok " ++ specC03 prog (unhex bin)
+  | ["script", prog] => "ok " ++ scriptRun prog
   | _ => "bad-op"
 
 partial def loop (h : IO.FS.Stream) (out : IO.FS.Stream) : IO Unit := do
